@@ -257,28 +257,42 @@ func (w *World) translateFuncPass(m *Module, key string, fd *ast.FuncDecl, panic
 			t.result = Type{K: KTuple, Elems: rts}
 		}
 	}
+	if !t.closureMode && t.result.K == KFunc && t.recvName == "" {
+		t.closureMode = true
+	}
 	if t.closureMode {
 		// the parameters of the returned function follow the constructor's; every returned literal binds
 		// its own parameter names to these (the names are those of the first literal)
 		if t.result.K != KFunc {
 			return "", t.errf(fd, "function literal returned where %s is expected", t.result)
 		}
-		for _, f := range firstLit.Type.Params.List {
-			pt, _, err := t.resolveType(f.Type)
-			if err != nil {
-				return "", err
-			}
-			for _, n := range f.Names {
-				cn := t.fresh(n.Name)
-				t.cparams = append(t.cparams, cn)
-				t.cparamTys = append(t.cparamTys, pt)
-				if !t.panicMode {
-					t.params = append(t.params, fmt.Sprintf("(%s : %s)", cn, pt.coq(m)))
-				}
+		addc := func(name string, pt Type) {
+			cn := t.fresh(name)
+			t.cparams = append(t.cparams, cn)
+			t.cparamTys = append(t.cparamTys, pt)
+			if !t.panicMode {
+				t.params = append(t.params, fmt.Sprintf("(%s : %s)", cn, pt.coq(m)))
 			}
 		}
-		if len(t.cparams) != len(t.result.Params) {
-			return "", t.errf(firstLit, "unsupported function literal with unnamed parameters")
+		if firstLit != nil {
+			for _, f := range firstLit.Type.Params.List {
+				pt, _, err := t.resolveType(f.Type)
+				if err != nil {
+					return "", err
+				}
+				for _, n := range f.Names {
+					addc(n.Name, pt)
+				}
+			}
+			if len(t.cparams) != len(t.result.Params) {
+				return "", t.errf(firstLit, "unsupported function literal with unnamed parameters")
+			}
+		} else {
+			// no literal at all (every path returns a function VALUE, e.g. `return fold(fields, math.Min)`):
+			// eta-expand with parameters named after the result type
+			for _, pt := range t.result.Params {
+				addc("v", pt)
+			}
 		}
 	}
 	body, err := t.stmts(fd.Body.List, env, func(e *Env) (string, error) {
@@ -549,7 +563,15 @@ func (t *fnTr) stmts(list []ast.Stmt, env *Env, k cont) (string, error) {
 		}
 		return joinLets(lets, r), nil
 	case *ast.RangeStmt:
-		return "", t.errf(s, "unsupported statement: range loop")
+		lets, err := t.rangeFold(s, env)
+		if err != nil {
+			return "", err
+		}
+		r, err := next(env)
+		if err != nil {
+			return "", err
+		}
+		return joinLets(lets, r), nil
 	case *ast.SwitchStmt:
 		ifs, err := t.switchAsIf(s)
 		if err != nil {
@@ -569,11 +591,23 @@ func (t *fnTr) stmts(list []ast.Stmt, env *Env, k cont) (string, error) {
 	return "", t.errf(s, "unsupported statement %T", s)
 }
 
-// switchAsIf rewrites a tagless `switch { case c1: B1 ... default: Bd }` (no init, no fallthrough/break, one
-// condition per case) into the equivalent if / else-if chain; nil for an empty switch.
+// switchAsIf rewrites `switch [init;] [tag] { case v1, v2: B1 ... default: Bd }` (no fallthrough/break) into the
+// equivalent if / else-if chain, tested in source order; nil for an empty switch.  With a tag the conditions
+// are tag == v (the tag is a pure expression of the subset, so evaluating it per case is the same value); an
+// init statement scopes over the whole chain.
 func (t *fnTr) switchAsIf(s *ast.SwitchStmt) (ast.Stmt, error) {
-	if s.Init != nil || s.Tag != nil {
-		return nil, t.errf(s, "unsupported statement: switch with an init statement or a tag")
+	if s.Init != nil {
+		inner := *s
+		inner.Init = nil
+		chain, err := t.switchAsIf(&inner)
+		if err != nil {
+			return nil, err
+		}
+		list := []ast.Stmt{s.Init}
+		if chain != nil {
+			list = append(list, chain)
+		}
+		return &ast.BlockStmt{Lbrace: s.Pos(), List: list, Rbrace: s.End()}, nil
 	}
 	var cases []*ast.CaseClause
 	var def *ast.CaseClause
@@ -599,9 +633,6 @@ func (t *fnTr) switchAsIf(s *ast.SwitchStmt) (ast.Stmt, error) {
 			def = cc
 			continue
 		}
-		if len(cc.List) != 1 {
-			return nil, t.errf(cc, "unsupported statement: switch case with several conditions")
-		}
 		cases = append(cases, cc)
 	}
 	var tail ast.Stmt
@@ -610,7 +641,19 @@ func (t *fnTr) switchAsIf(s *ast.SwitchStmt) (ast.Stmt, error) {
 	}
 	for i := len(cases) - 1; i >= 0; i-- {
 		cc := cases[i]
-		tail = &ast.IfStmt{If: cc.Pos(), Cond: cc.List[0],
+		var cond ast.Expr
+		for _, v := range cc.List {
+			c := v
+			if s.Tag != nil {
+				c = &ast.BinaryExpr{X: s.Tag, OpPos: v.Pos(), Op: token.EQL, Y: v}
+			}
+			if cond == nil {
+				cond = c
+			} else {
+				cond = &ast.BinaryExpr{X: cond, OpPos: v.Pos(), Op: token.LOR, Y: c}
+			}
+		}
+		tail = &ast.IfStmt{If: cc.Pos(), Cond: cond,
 			Body: &ast.BlockStmt{Lbrace: cc.Pos(), List: cc.Body, Rbrace: cc.End()}, Else: tail}
 	}
 	return tail, nil
@@ -990,7 +1033,7 @@ func (t *fnTr) ifStmt(s *ast.IfStmt, env *Env, next cont) (string, error) {
 	}
 	// `if c { panic(..) }`: Go stops here; the total Gallina function yields the zero value of its result
 	// type and <name>_panics (second pass) yields true
-	if s.Else == nil && len(s.Body.List) == 1 && isPanicStmt(s.Body.List[0]) {
+	if len(s.Body.List) == 1 && isPanicStmt(s.Body.List[0]) {
 		if t.inClosure {
 			return "", t.errf(s, "unsupported statement: panic inside a returned function literal")
 		}
@@ -1008,7 +1051,18 @@ func (t *fnTr) ifStmt(s *ast.IfStmt, env *Env, next cont) (string, error) {
 				return "", err
 			}
 		}
-		elseCode, err := next(env)
+		var elseCode string
+		afterElse := func(e *Env) (string, error) { return next(e.pop()) }
+		switch e := s.Else.(type) {
+		case nil:
+			elseCode, err = next(env)
+		case *ast.BlockStmt:
+			elseCode, err = t.stmts(e.List, env.clone().push(), afterElse)
+		case *ast.IfStmt:
+			elseCode, err = t.stmts([]ast.Stmt{e}, env.clone().push(), afterElse)
+		default:
+			err = t.errf(s, "unsupported else form")
+		}
 		if err != nil {
 			return "", err
 		}
@@ -1151,6 +1205,89 @@ func (t *fnTr) forFold(s *ast.ForStmt, env *Env) ([]string, error) {
 	accName := t.fresh(acc.Name + "_acc")
 	elemName := t.fresh(xs.Name + "_i")
 	inner.define(iv.Name, &binding{name: "?", ty: tInt, loopOf: xs.Name, elem: elemName, elemTy: xb.ty.Elems[0]})
+	inner.assign(acc.Name, &binding{name: accName, ty: ab.ty})
+	v, err := t.expr(as.Rhs[0], inner)
+	if err != nil {
+		return nil, err
+	}
+	if !v.ty.eq(ab.ty) {
+		return nil, t.errf(as, "assignment changes the type of %s", acc.Name)
+	}
+	list := xb.name
+	if start != "0" {
+		list = fmt.Sprintf("(skipn %s %s)", start, xb.name)
+	}
+	fold := val{fmt.Sprintf("(fold_left (fun %s %s => %s) %s %s)", accName, elemName, v.code, list, ab.name), ab.ty}
+	return t.bind(acc.Name, fold, env, false, as)
+}
+
+// rangeFold: the range form of the same loop shape,
+//
+//	for _, x := range xs      { acc = E }
+//	for _, x := range xs[K:]  { acc = E }     (xs a read-only list, K a non-negative literal)
+//
+// becomes  let acc' := fold_left (fun acc x => E) (skipn K xs) acc in ...
+func (t *fnTr) rangeFold(s *ast.RangeStmt, env *Env) ([]string, error) {
+	bad := func(n ast.Node, what string) ([]string, error) {
+		return nil, t.errf(n, "unsupported statement: range loop (%s; only `for _, x := range xs[K:] { acc = E }`)", what)
+	}
+	if s.Tok != token.DEFINE {
+		return bad(s, "loop variables must be declared with :=")
+	}
+	if k, ok := s.Key.(*ast.Ident); s.Key != nil && (!ok || k.Name != "_") {
+		return bad(s, "the index variable must be _")
+	}
+	xv, ok := s.Value.(*ast.Ident)
+	if !ok || xv.Name == "_" {
+		return bad(s, "no element variable")
+	}
+	start := "0"
+	src := s.X
+	if se, ok := src.(*ast.SliceExpr); ok {
+		if se.High != nil || se.Max != nil || se.Slice3 {
+			return bad(s, "only xs[K:] slices")
+		}
+		if se.Low != nil {
+			l, ok := intLit(se.Low)
+			if !ok || strings.HasPrefix(l, "-") {
+				return bad(s, "start index is not a non-negative integer literal")
+			}
+			start = l
+		}
+		src = se.X
+	}
+	xs, ok := src.(*ast.Ident)
+	if !ok {
+		return bad(s, "the range expression is not a list variable")
+	}
+	xb := env.lookup(xs.Name)
+	if xb == nil || xb.ty.K != KList {
+		return bad(s, "the range expression is not a list variable")
+	}
+	if len(s.Body.List) != 1 {
+		return bad(s, "body is not a single assignment")
+	}
+	as, ok := s.Body.List[0].(*ast.AssignStmt)
+	if !ok || as.Tok != token.ASSIGN || len(as.Lhs) != 1 || len(as.Rhs) != 1 {
+		return bad(s, "body is not a single assignment")
+	}
+	acc, ok := as.Lhs[0].(*ast.Ident)
+	if !ok || acc.Name == xv.Name || acc.Name == xs.Name {
+		return bad(s, "body is not an assignment to an accumulator variable")
+	}
+	ab := env.lookup(acc.Name)
+	if ab == nil || ab.exploded || ab.loopOf != "" {
+		return bad(s, "accumulator is not a plain local variable")
+	}
+	switch ab.ty.K {
+	case KFloat, KVec2, KVec3, KVec4, KBool:
+	default:
+		return bad(s, "accumulator type "+ab.ty.String())
+	}
+	inner := env.clone().push()
+	accName := t.fresh(acc.Name + "_acc")
+	elemName := t.fresh(xv.Name)
+	inner.define(xv.Name, &binding{name: elemName, ty: xb.ty.Elems[0]})
 	inner.assign(acc.Name, &binding{name: accName, ty: ab.ty})
 	v, err := t.expr(as.Rhs[0], inner)
 	if err != nil {
@@ -1346,6 +1483,11 @@ func (t *fnTr) expr(e ast.Expr, env *Env) (val, error) {
 			if path, ok := t.imps[id.Name]; ok {
 				if path == "math" && e.Sel.Name == "Pi" {
 					return val{"cpi", tFloat}, nil
+				}
+				if mf, ok := mathFuncs[e.Sel.Name]; ok && path == "math" {
+					// math.Min etc. used as a function VALUE (argument of a higher-order helper)
+					ps := make([]Type, mf.n)
+					return val{mf.coq, tFunc(tFloat, ps...)}, nil
 				}
 				return val{}, t.errf(e, "unsupported package-level value %s.%s", id.Name, e.Sel.Name)
 			}
